@@ -73,7 +73,8 @@ def run(ctx, rep, model=True):
         # three-level meshes with exposed coarse cells in boxes longer than two cells matter: replication by 4
         spec = plotgen.random_spec(ctx.rng, ndims=3, nlev=[3, 2, 3, 1][i % 4], nf=[2, 3, 1][i % 3], data="tags", B=[2, 4][i % 2],
                                    nblk=[[2, 1, 2], [1, 2, 1], [2, 2, 1], [1, 1, 2]][i % 4], layout=["scatter", "files"][i % 2],
-                                   single0=(i % 3 == 0), refine_p=0.3)
+                                   single0=(i % 3 == 0), refine_p=0.3, scale=[None, None, "tiny", None, "far"][i % 5],
+                                   exact=(i % 2 == 0))
         path = ctx.newdir("c10_")
         truth = plotgen.materialize(spec, path)
         names = list(dedup_names(spec["fields"]))
